@@ -62,13 +62,13 @@ func c14Domains(e *domEnv) []*msgDom {
 	var ds []*msgDom
 	ds = append(ds, &msgDom{Name: "aol.MsgCreateTopicRequest", New: func() sdk.Msg { return &aoltypes.MsgCreateTopicRequest{} }, Fields: []fdom{
 		sv("topic_name", func(m sdk.Msg, v string) { m.(*aoltypes.MsgCreateTopicRequest).TopicName = v }, "a", "b"),
-		sv("description", func(m sdk.Msg, v string) { m.(*aoltypes.MsgCreateTopicRequest).Description = v }, "", "x", "y"),
+		sv("description", func(m sdk.Msg, v string) { m.(*aoltypes.MsgCreateTopicRequest).Description = v }, "", "x", "y", " x", "x ", "x\n", "\tx"),
 		sv("owner_address", func(m sdk.Msg, v string) { m.(*aoltypes.MsgCreateTopicRequest).OwnerAddress = v }, A, B),
 	}})
 	ds = append(ds, &msgDom{Name: "aol.MsgAddWriterRequest", New: func() sdk.Msg { return &aoltypes.MsgAddWriterRequest{} }, Fields: []fdom{
 		sv("topic_name", func(m sdk.Msg, v string) { m.(*aoltypes.MsgAddWriterRequest).TopicName = v }, "a", "b"),
 		sv("moniker", func(m sdk.Msg, v string) { m.(*aoltypes.MsgAddWriterRequest).Moniker = v }, "", "x", "y"),
-		sv("description", func(m sdk.Msg, v string) { m.(*aoltypes.MsgAddWriterRequest).Description = v }, "", "x", "y"),
+		sv("description", func(m sdk.Msg, v string) { m.(*aoltypes.MsgAddWriterRequest).Description = v }, "", "x", "y", " x", "x\n"),
 		sv("writer_address", func(m sdk.Msg, v string) { m.(*aoltypes.MsgAddWriterRequest).WriterAddress = v }, W, B),
 		sv("owner_address", func(m sdk.Msg, v string) { m.(*aoltypes.MsgAddWriterRequest).OwnerAddress = v }, A, B),
 	}})
@@ -280,7 +280,8 @@ func zeroFields(m sdk.Msg) []string {
 
 type c14msg struct {
 	typ   string
-	msg   sdk.Msg
+	msg   sdk.Msg // the object stateless validation has run on (what the ante handler computes legacy sign bytes from)
+	fresh sdk.Msg // a copy decoded from the submitted bytes and never validated (DIRECT modes sign the submitted bytes)
 	proto string
 }
 
@@ -314,14 +315,20 @@ func c14Enumerate(e *domEnv) []c14msg {
 	var out []c14msg
 	for _, d := range c14Domains(e) {
 		d.product(-1, func(m sdk.Msg, _ []string, _ int) {
-			if err := m.ValidateBasic(); err != nil {
-				return
-			}
+			// identity of the message = its bytes as submitted, taken BEFORE stateless validation runs on the decoded object
+			// (the ante handler computes legacy sign bytes from the object that ValidateBasic has already seen)
 			bz, err := gogoproto.Marshal(m)
 			if err != nil {
 				return
 			}
-			out = append(out, c14msg{d.Name, m, string(bz)})
+			fresh := d.New()
+			if err := gogoproto.Unmarshal(bz, fresh.(gogoproto.Message)); err != nil {
+				return
+			}
+			if err := m.ValidateBasic(); err != nil {
+				return
+			}
+			out = append(out, c14msg{d.Name, m, fresh, string(bz)})
 		})
 	}
 	return out
@@ -375,7 +382,11 @@ func C14(t Tier) int {
 		n := 0
 		supported[mode.String()] = map[string]bool{}
 		for _, m := range msgs {
-			bz, err := c14SignBytes(txc, mode, m.msg, e.A, X)
+			obj := m.msg
+			if mode != signing.SignMode_SIGN_MODE_LEGACY_AMINO_JSON {
+				obj = m.fresh
+			}
+			bz, err := c14SignBytes(txc, mode, obj, e.A, X)
 			evals++
 			if err != nil {
 				continue
@@ -384,7 +395,7 @@ func C14(t Tier) int {
 			supported[mode.String()][m.typ] = true
 			// stability: identical every time they are computed
 			for i := 0; i < 2; i++ {
-				again, _ := c14SignBytes(txc, mode, m.msg, e.A, X)
+				again, _ := c14SignBytes(txc, mode, obj, e.A, X)
 				if string(again) != string(bz) {
 					run.Add(report.Viol{Kind: "unstable-signbytes", Sig: "unstable:" + mode.String() + ":" + m.typ, Msg: "sign bytes differ between two computations in one process", Replay: map[string]any{"type": m.typ}})
 				}
@@ -408,6 +419,22 @@ func C14(t Tier) int {
 				s = s[:400] + "..."
 			}
 			samples = append(samples, map[string]any{"mode": mode.String(), "type": msgs[len(msgs)/2].typ, "sign_bytes": s})
+		}
+	}
+	// stateless validation must not change what is signed: sign bytes of a freshly decoded copy (never validated) must
+	// equal the sign bytes computed after ValidateBasic has run on it
+	for _, m := range msgs {
+		fresh, ok := reflect.New(reflect.TypeOf(m.msg).Elem()).Interface().(sdk.Msg)
+		if !ok || gogoproto.Unmarshal([]byte(m.proto), fresh.(gogoproto.Message)) != nil {
+			continue
+		}
+		before, err1 := c14SignBytes(txc, signing.SignMode_SIGN_MODE_LEGACY_AMINO_JSON, fresh, e.A, X)
+		_ = fresh.ValidateBasic()
+		after, err2 := c14SignBytes(txc, signing.SignMode_SIGN_MODE_LEGACY_AMINO_JSON, fresh, e.A, X)
+		evals++
+		if err1 == nil && err2 == nil && string(before) != string(after) {
+			run.Add(report.Viol{Kind: "unstable-signbytes", Sig: "unstable-across-validation:" + m.typ, Msg: fmt.Sprintf("the legacy sign bytes of a %s differ before and after ValidateBasic ran on the decoded message (stateless validation mutates what is signed): %q vs %q", m.typ, firstN(string(before), 300), firstN(string(after), 300)), Replay: map[string]any{"check": "C14", "type": m.typ}})
+			break
 		}
 	}
 	// one violation per (mode, type pair, set of empty fields)
